@@ -265,9 +265,34 @@ def check_reload(col, rule="C09.R5"):
     col.add(rule, f"{q}#logs-the-restored-point", bool(sx.calls_some(("call", ("attr", S.SELF, "add_point_to_log"), S.ANY, S.ANY))), sx.loc(sx.fn),
             "after restoring, the point is logged (re-evaluated)", "")
     tag = sx.pnamed("tag") if "tag" in sx.sym.params else None
-    reb = [nid for nid in cfg.nodes for d in sx.cx.rd.defs.get(nid, []) if d.name == it[2] and d.kind == "assign"]
-    okr = all(tag is not None and sx.under(n, ("cmp", "is not", tag, ("const", "None"))) for n in reb)
-    col.add(rule, f"{q}#iteration-as-given", okr, sx.loc(sx.fn), "the row reloaded is the one asked for (derived from the tag only when a tag is given)", "")
+    # where the log is read at `iteration`: every value it can have there is the argument itself, or was derived under `tag is not None`
+    okr, facts_r, n_use = True, [], 0
+    given_tag = ("cmp", "is not", tag, ("const", "None")) if tag is not None else None
+    for nid, nd in cfg.nodes.items():
+        if nd.ast is None or nd.kind not in ("stmt", "test", "for"):
+            continue
+        for part in cfg.own_exprs(nid):
+            if part is None:
+                continue
+            for x in ast.walk(part):
+                if isinstance(x, ast.Subscript) and isinstance(x.slice, ast.Name) and isinstance(x.ctx, ast.Load):
+                    base = sx.sym.of(x.value, nid)
+                    if not (base[:1] == ("sub",) and base[1] == LOG):
+                        continue
+                    idx_t = sx.sym.of(x.slice, nid)
+                    if it not in S.alts(idx_t) and not any(y == it for y in S.subterms(idx_t)):
+                        continue
+                    n_use += 1
+                    for tv, cs in sx.guarded_values(x.slice, nid):
+                        if tv == it:
+                            continue
+                        if given_tag is None or given_tag not in cs:
+                            okr = False
+                            facts_r.append(f"{S.show(tv)[:60]} under {[S.show(c) for c in cs][:3]}")
+    if n_use == 0:
+        raise AnalysisError(f"{q}: no read of a log column at the requested iteration found (cannot decide)")
+    col.add(rule, f"{q}#iteration-as-given", okr, sx.loc(sx.fn), "the row reloaded is the one asked for (derived from the tag only when a tag is given)",
+            "; ".join(facts_r[:2]))
     rng = False
     for n in cfg.nodes.values():
         if n.kind == "test" and n.from_assert:
